@@ -8,4 +8,5 @@ def run(rep, tier, seed, replay):
                        "shapes recorded in known_findings.json are quarantined in the corpus classification"]
     c_build = __import__("common").build_harness()
     tr = gencheck.encode_traces(rep, "C02", tier, seed)
+    tr.update(gencheck.decode_traces(rep, "C02", tier, seed))
     return gencheck.run_property(rep, "C02", tier, seed, "model_checking", extra_cov=tr)
